@@ -475,6 +475,9 @@ Definition idle_history (ivl : Z) (n : nat) : list op := Timer 0 :: repeat (Time
 Definition requests_history (ivl : Z) (n : nat) : list op :=
   Pub :: Timer 0 :: concat (repeat [Pub; Timer ivl] n).
 
+(* the keep-alive schedule of [requests_history]: at interval 1, at interval kac+2, then every kac *)
+Definition ka_schedule (k i : Z) : bool := (i =? 1) || ((k + 2 <=? i) && ((i - 2) mod k =? 0)).
+
 (* the world at the end of a history (None: a panic) *)
 Fixpoint final_gen (f15 f9 : bool) (ivl now : Z) (w : world) (ops : list op) : option world :=
   match ops with
